@@ -57,7 +57,7 @@ class Check:
         v = []
         for txt in res.san:
             self.count("sanitizer_reports")
-            v.append(Violation("crash|" + runner.san_key(txt), "sanitizer report:\n" + txt[:3000], res))
+            v.append(Violation("crash|" + runner.san_key(txt, res.stderr_full), "sanitizer report:\n" + txt[:3000], res))
         oc = res.open_calls()
         if res.timed_out:
             where = ["r%d:%s@%d" % (i, e.op, e.line) if e else "r%d:done" % i for i, e in enumerate(oc)]
@@ -74,7 +74,7 @@ class Check:
             return v
         if not res.finished() and not res.san:
             sigs = [e.op if e else "done" for e in oc]
-            if res.rc == 3 or "script-error" in res.stderr or any(e.kind == "X" for evs in res.logs for e in evs):
+            if "pncdrv[" in res.stderr or any(e.kind == "X" for evs in res.logs for e in evs):
                 raise runner.HarnessError("script error in case %s: %s" % (res.case.name, res.stderr[-800:]))
             v.append(Violation("abort|" + "+".join(sorted(set(s for s in sigs if s != "done"))) + "|" + self.abort_site(res), "abnormal termination rc=%s open=%s stderr=%s" % (res.rc, sigs, res.stderr[-1500:]), res))
         # guard zones and write buffers (C13 side monitor)
@@ -178,7 +178,11 @@ class Check:
                 seen_known.setdefault((prop, x.key), (k, x))
             else:
                 new.setdefault((prop, x.key), x)
+        printed = set()
         for (prop, key), (k, x) in seen_known.items():
+            if (prop, k.get("what")) in printed:
+                continue
+            printed.add((prop, k.get("what")))
             print("KNOWN-FINDING: property=%s %s [key=%s]" % (prop, k.get("what", ""), key))
         for (prop, key), x in new.items():
             path = runner.save_replay(self.id, x.res, x.msg) if x.res is not None else "-"
